@@ -359,11 +359,13 @@ func (q *Query) setArchetype(arches archetypes, access *archetypeAccess, arch *a
 }
 
 func (q *Query) stepArchetype(step uint32) (int, bool) {
-	q.entityIndex += step
-	if q.entityIndex <= q.entityIndexMax {
+	// The sum is calculated in 64 bits, as it can exceed the range of uint32.
+	index := uint64(q.entityIndex) + uint64(step)
+	if index <= uint64(q.entityIndexMax) {
+		q.entityIndex = uint32(index)
 		return 0, true
 	}
-	return int(q.entityIndex) - int(q.entityIndexMax) - 1, false
+	return int(index - uint64(q.entityIndexMax) - 1), false
 }
 
 func (q *Query) countEntities() int {
